@@ -63,7 +63,7 @@ def gen_S(rng, depth, d):
 def cases(tier, seed):
     rng = random.Random('C15|%d' % seed)
     cs = []
-    n = 900 if tier == 'quick' else 9000
+    n = 3000 if tier == 'quick' else 40000
     for i in range(n):
         d = rng.choice([1, 2, 2, 3, 3, 4])
         N = [rng.choice((1, 2, 3)) for _ in range(d)]
